@@ -93,6 +93,9 @@ func suiteSizing(c *Ctx) {
 	for _, cfg := range [][2]float64{{1000, 0.1}, {1000, 0.01}, {2000, 0.3}, {5000, 0.001}, {1000, 0.0001}, {3000, 0.5}} {
 		sizingBloom(c, uint(cfg[0]), cfg[1], probes)
 	}
+	// a filter loaded (Import) into a handle that has been used for another, fuller filter
+	sizingBloomReload(c, false, probes/2)
+	sizingBloomReload(c, true, probes/4)
 	for _, cfg := range [][2]float64{{0.01, 0.05}, {0.05, 0.1}, {0.002, 0.01}, {0.1, 0.3}} {
 		sizingCMS(c, cfg[0], cfg[1], false)
 		sizingCMS(c, cfg[0], cfg[1], true)
@@ -295,4 +298,43 @@ func sizingCMSBimodal(c *Ctx, eps, delta float64, redis bool) {
 			map[string]interface{}{"eps": eps, "delta": delta, "redis": redis, "heavy": heavy, "light": light, "light_weight": lw, "seed": c.seed})
 	}
 	c.nontrivial(fmt.Sprintf("cms-bimodal %g %g %v", eps, delta, redis))
+}
+
+// the error budget belongs to the filter, not to the handle: a filter built for (n, p), filled to
+// n, exported and imported into a handle that previously held (and was queried for) another,
+// fuller filter still meets p.
+func sizingBloomReload(c *Ctx, redis bool, probes int) {
+	n, p := uint(400), 0.01
+	f, err := bloomCfg{kind: "params", numItems: n, errorRate: p, redis: redis}.build()
+	g, err2 := bloomCfg{kind: "params", numItems: 300, errorRate: 0.2, redis: redis}.build()
+	if err != nil || err2 != nil || f == nil || g == nil {
+		return
+	}
+	c.rep.Cases++
+	for i := uint(0); i < n; i++ {
+		f.Insert([]byte(fmt.Sprintf("member-%d-%d", c.seed, i)))
+	}
+	for i := 0; i < 900; i++ { // the previous tenant: over-full, and queried
+		g.Insert([]byte(fmt.Sprintf("old-tenant-%d-%d", c.seed, i)))
+		g.Lookup([]byte(fmt.Sprintf("old-tenant-%d-%d", c.seed, i)))
+		g.Lookup([]byte(fmt.Sprintf("old-probe-%d-%d", c.seed, i)))
+	}
+	doc, err := f.Export()
+	if err != nil || g.Import(doc) != nil {
+		return
+	}
+	hits := 0
+	for i := 0; i < probes; i++ {
+		if g.Lookup([]byte(fmt.Sprintf("absent-%d-%d", c.seed, i))) {
+			hits++
+		}
+	}
+	c.op(fmt.Sprintf("stat.bloom.reload.redis=%v", redis))
+	rate := float64(hits) / float64(probes)
+	c.sample(map[string]interface{}{"bloom-reload": fmt.Sprintf("n=%d p=%g redis=%v", n, p, redis), "observed_fp_rate": rate})
+	if overBudget(hits, probes, p) {
+		c.fail([]string{"C15", "C10"}, "bloom-fp-rate-above-budget-after-import", fmt.Sprintf("BloomFilter(n=%d,p=%g,redis=%v) imported into a used handle: %d false positives in %d probes (rate %.5f)", n, p, redis, hits, probes, rate),
+			map[string]interface{}{"n": n, "p": p, "redis": redis, "probes": probes, "hits": hits, "seed": c.seed})
+	}
+	c.nontrivial(fmt.Sprintf("bloom-reload %v", redis))
 }
